@@ -128,6 +128,9 @@ func GenGenuine(r *rand.Rand, w *World, o GenOpts) *Genuine {
 	val := func(def string) string { return valAt(def, false) }
 	aval := func(def string) string { return valAt(def, true) }
 	rec.ID = sim.S("_" + fmt.Sprintf("r%08x", r.Uint32()))
+	if o.Values && r.IntN(6) == 0 {
+		rec.ID = sim.S(NCNameID(r))
+	}
 	rec.InResponseTo = sim.S(aval("_req" + fmt.Sprint(r.IntN(1000))))
 	if r.IntN(4) == 0 {
 		rec.InResponseTo = nil
@@ -141,6 +144,8 @@ func GenGenuine(r *rand.Rand, w *World, o GenOpts) *Genuine {
 		a.ID = sim.S(fmt.Sprintf("_a%d-%08x", i, r.Uint32()))
 		if o.Values && r.IntN(4) == 0 {
 			a.ID = sim.S("id-" + pick(r, []string{"a.b", "A_1", "x-y", "id" + fmt.Sprint(r.IntN(99))}))
+		} else if o.Values && r.IntN(6) == 0 {
+			a.ID = sim.S(NCNameID(r) + fmt.Sprint(i))
 		}
 		a.IssueInstant = sim.S(randInstant(r, w.Now.Add(-time.Duration(r.IntN(100))*time.Second)))
 		a.NameID = sim.S(val("user" + fmt.Sprint(r.IntN(1000)) + "@example.org"))
@@ -387,4 +392,16 @@ func AttrCRtoLF(rec *sim.Response) *sim.Response {
 		out.Assertions = append(out.Assertions, &b)
 	}
 	return &out
+}
+
+// NCNameID returns a legal xs:ID that uses more of the NCName repertoire than "_" + hex: letters of several scripts
+// (precomposed and with combining marks), extenders, digits, '.', '-', '_', characters beyond the BMP.
+func NCNameID(r *rand.Rand) string {
+	start := []string{"_", "a", "Z", "\u00e9", "\u03a9", "\u6f22", "\u0416", "\U00010400", "\u0e01", "\u05d0"}
+	rest := []string{"e\u0301", "\u00b7", "\u0300", "\u0e31", "\u3005", "\u30fc", "\u0660", "\u0663", "9", ".", "-", "_", "\u00e9", "\u6f22\u5b57", "r\u00e9ponse", "\U00010400", "\u203f", "\u0387", "x", "ID", "7"}
+	id := start[r.IntN(len(start))]
+	for i := 1 + r.IntN(5); i > 0; i-- {
+		id += rest[r.IntN(len(rest))]
+	}
+	return id + fmt.Sprintf("-%04x", r.IntN(1<<16))
 }
